@@ -168,15 +168,15 @@ EventFits(s, e) == Sync(s) /\ CaseFits(KEvent(s, e), s.liveS)
 (* loop continuation is decided HERE: it is one iff the location still has budget and its node still matched.   *)
 (* Otherwise the node is visited as a NEW location, which only the nested walk can do (nested=True, on='enter': *)
 (* the statements put in place of a match are searched, the first of them is the node returned).                *)
-Cont(e, r, ps) == e.same /\ Cfg.loop > 0 /\ r >= 1 /\ r < Cfg.loop /\ ps
+Cont(e, r, ps) == e.same /\ Cfg.loop # 0 /\ r >= 1 /\ (Cfg.loop < 0 \/ r < Cfg.loop) /\ ps     \* loop -1 = True: no bound
 IsCont(e)  == Cont(e, run, pstill)
 RunNow(e)  == IF IsCont(e) THEN run + 1 ELSE 1
 LastOfRun(i, e) == LET nx == Steps(tid)[i + 1] IN nx.k # "subst" \/ ~Cont(nx, RunNow(e), e.still)
 NextOk(i)    == LET nx == Steps(tid)[i + 1] IN nx.k = "subst" \/ nx.outcome = "ok"
 LoopClauses(e) ==
   (IF e.same /\ ~IsCont(e) THEN {Cl("Loop.Bounded", Cfg.nested /\ Cfg.on = "enter")} ELSE {})
-  \cup (IF Cfg.loop > 0 /\ l < Len(Steps(tid)) /\ LastOfRun(l, e) /\ NextOk(l)
-        THEN {Cl("Loop.Complete", e.still => RunNow(e) = Cfg.loop)} ELSE {})
+  \cup (IF Cfg.loop # 0 /\ l < Len(Steps(tid)) /\ LastOfRun(l, e) /\ NextOk(l)
+        THEN {Cl("Loop.Complete", e.still => (Cfg.loop > 0 /\ RunNow(e) = Cfg.loop))} ELSE {})
 
 SubstClauses(s, e) ==     \* s = state after the previous step, e.pre = state observed when the callback fired
   LET t == e.post  q == e.pre  K == KEvent(q, e) IN
@@ -250,6 +250,19 @@ Detail(K, q0) == (IF \E m \in K.Sel : YieldArg(K, m) THEN "/yield-arg" ELSE "")
              \o (IF K.nested /\ \E m \in K.Sel : \E o \in G!TopOccs(K, m) : o.g = "" /\ o.flat THEN "/whole-flatten" ELSE "")
              \o (IF \E m \in K.Sel : ArgsNonContig(K, m, q0) THEN "/capture-args-noncontiguous" ELSE "")
 
+(* nested=True: "all of them".  When the template brings no node of its own that the pattern matches (fact       *)
+(* tmplM = 0, from pfst search on the template), has no whole-match slot, and a capture standing at the top of  *)
+(* the template is a statement slice (put as a slice, so the statements put are searched themselves), nothing   *)
+(* excuses a node from substitution: whatever loop does, the result must not contain a match any more.          *)
+RECURSIVE HasWhole(_)
+HasWhole(x) == TSlotTag(x) = "" \/ \E i \in 1..Len(Fields(x)) : \E j \in 1..Len(Fields(x)[i].c) : HasWhole(Fields(x)[i].c[j])
+ExhDomain(K, e) ==
+  /\ Cfg.nested /\ Cfg.on = "enter" /\ Cfg.count = 0 /\ Cfg.shapeOnly /\ e.outcome = "ok" /\ fits /\ allValid
+  /\ Tr.tmplM = 0 /\ ~\E j \in 1..Len(Tr.T) : HasWhole(Tr.T[j])
+  /\ (G!TopCapture(K) => Cfg.cat = "stmt")
+  /\ \A m \in DOMAIN K.M : \A o \in G!TopOccs(K, m) : G!CapT(K, m, o.g) # "missing"   \* a dropped slot can make a template
+                                                                                       \* node match (arity), tmplM is then no guide
+
 DoneClauses(s, e) ==
   LET t  == e.post
       S0 == Static
@@ -266,7 +279,7 @@ DoneClauses(s, e) ==
         \cup (IF G!IdentityTemplate(K) /\ Sync(Tr.init) /\ fits
               THEN {Cl("Identity", t.liveS = Tr.init.liveS)} ELSE {})
    ELSE {})
-  \cup (IF e.outcome = "diverged" /\ ~(Cfg.nested /\ Cfg.loop > 0) THEN {Cl("Terminates", FALSE)} ELSE {})
+  \cup (IF e.outcome = "diverged" /\ ~(Cfg.nested /\ Cfg.loop > 0) /\ Cfg.loop >= 0 THEN {Cl("Terminates", FALSE)} ELSE {})
   \cup (IF stat /\ e.hasRef /\ e.outcome # "diverged"
         THEN { Cl("RefAgree", G!TemplateRel(K, Tr.init.liveS, e.expS)) }
              \cup (IF e.expValid THEN {Cl("CarriedOut", e.outcome = "ok")} ELSE {})
@@ -281,6 +294,8 @@ DoneClauses(s, e) ==
                               ELSE {})
                    ELSE {})
         ELSE {})
+  \cup (IF ExhDomain(K, e) /\ Sync(Tr.init)
+        THEN {Cl("Nested.Exhaustive", \A i \in 1..Len(e.finalM) : Excluded(t.liveS, e.finalM[i]))} ELSE {})
   \cup (IF e.hasModel
         THEN { Cl("Model.Result", e.outcome = "ok" /\ e.gobs = e.gexp),
                Cl("Model.Counts", e.uniq = e.guniq /\ e.total = e.gtotal) }
